@@ -769,6 +769,25 @@ pub fn spaces(tier: &str) -> Vec<Space> {
     v.push(build_space("full", &u_small(), 1, &u_full(thorough), true, 100_000));
     // alias space: short universe, deep histories (C08)
     v.push(build_space("alias", &u_vars(), if thorough { 4 } else { 3 }, &u_vars(), false, if thorough { 60_000 } else { 6_000 }));
+    // tails space: lists that end in each of the variables, after histories that alias the variables
+    // or bind them through other tails (an alias meeting a list tail: C06, C08, C07)
+    let u_tails: Vec<T> = vec![
+        x(),
+        y(),
+        z(),
+        list(vec![]),
+        list(vec![atom("b")]),
+        list(vec![atom("a"), atom("b")]),
+        list_t(vec![atom("a")], x()),
+        list_t(vec![atom("a")], y()),
+        list_t(vec![atom("a")], z()),
+        list_t(vec![atom("a"), atom("b")], x()),
+        list_t(vec![x()], y()),
+        list_t(vec![atom("a")], T::Anon),
+        cplx("g", vec![list_t(vec![atom("a")], x()), y()]),
+        cplx("g", vec![list(vec![atom("a"), atom("b")]), atom("c")]),
+    ];
+    v.push(build_space("tails", &u_tails, 2, &u_tails, false, if thorough { 60_000 } else { 8_000 }));
     // function terms (C13): functions x partners, priors binding the variables to numbers/atoms
     let (fs, os) = u_func();
     let mut pu = fs.clone();
